@@ -24,7 +24,7 @@ Theorem C18_product :
          = map (fun e =>
                   let ok := nth (d_worker e) oks ([], []) in
                   (d_worker e,
-                   spec_drain_sent H ed_pk ed_sign (S (length (d_queue e))) (batch_size cfg)
+                   spec_drain_sent_f H ed_pk ed_sign (send_fails cfg) (S (length (d_queue e))) (batch_size cfg)
                      (ltk_srv_value H ed_pk lt) lt (fst ok) (snd ok) (d_clk e) 0 (d_queue e))) evs.
 Proof. exact product. Qed.
 Print Assumptions C18_product.
